@@ -435,9 +435,8 @@ func c20ServeRetry(c *Ctx) {
 	for _, p := range ps {
 		// attempts constant
 		for _, a := range p.Atoms {
-			x, y, op, ok := effCmp(a)
-			if ok && x.Op == an.OpLoop && op == token.GEQ {
-				if k, isC := y.ConstInt(); isC && p.Ret != nil && !exprIsNil(p.Results[0]) && len(p.Atoms) == 1 {
+			if k, _, exit, ok := loopTrip(a); ok && exit {
+				if p.Ret != nil && !exprIsNil(p.Results[0]) {
 					okAttempts = k == 40
 				}
 			}
@@ -464,7 +463,15 @@ func c20ServeRetry(c *Ctx) {
 		case "closed":
 			c.R.Check(p.Ret != nil && exprIsNil(p.Results[0]), "R-C20-5", key, fn, c.pos(sv.Pos()), "ends in "+pathKind(p), "http.ErrServerClosed ⇒ return nil", "expected shutdown reported as an error")
 		case "op-error":
-			c.R.Check(p.Cut, "R-C20-5", key, fn, c.pos(sv.Pos()), "ends in "+pathKind(p), "*net.OpError ⇒ retry (loop back)", "listener errors are not retried")
+			// retried: the path loops back, or (last attempt of a loop tested at the bottom) leaves the
+			// loop through the exhausted-counter exit and reports the time-out
+			exhausted := false
+			if p.Ret != nil && len(p.Atoms) > 0 {
+				if k, _, exit, ok := loopTrip(p.Atoms[len(p.Atoms)-1]); ok && exit && k == 40 && !exprIsNil(p.Results[0]) {
+					exhausted = true
+				}
+			}
+			c.R.Check(p.Cut || exhausted, "R-C20-5", key, fn, c.pos(sv.Pos()), "ends in "+pathKind(p), "*net.OpError ⇒ retry (loop back)", "listener errors are not retried")
 		case "other":
 			c.R.Check(p.Ret != nil && !exprIsNil(p.Results[0]), "R-C20-5", key, fn, c.pos(sv.Pos()), "ends in "+pathKind(p), "other errors are returned", "unexpected errors swallowed")
 		}
